@@ -376,7 +376,7 @@ def simulate_behaviours(module, cfg, num, depth, seed, name=None, timeout=300, w
             txt = f.read()
         beh = []
         # blocks: "\* <Action line ...>\nSTATE_n ==\n/\ ...\n\n"
-        for m in re.finditer(r"(?:\\\* <(\w+)[^\n]*>\n)?STATE_(\d+) ==\n(.*?)\n\n", txt, re.S):
+        for m in re.finditer(r"(?:\\\* <(\w+)[^\n]*>\n)?STATE_(\d+) ==[ ]*\n(.*?)\n\n", txt, re.S):
             beh.append((m.group(1) or "Init", parse_state(m.group(3))))
         if beh:
             behs.append(beh)
